@@ -58,7 +58,7 @@ def check(rep, tier):
     step_cases, run_cases, meta = [], [], []
     used = 0
     for ri in range(nruns):
-        cfg = fr.gen_config(rng, max_vials=36 if tier == "quick" else 150)
+        cfg = fr.gen_config(rng, max_vials=36 if tier == "quick" else 150, cn=(ri % 3 == 2))
         try:
             r = fr.run(cfg)
         except Exception as e:
@@ -75,6 +75,13 @@ def check(rep, tier):
         # oracle on every stored step of the run (cheap)
         for k in range(n - 1):
             T2, s2, q = numpy_step(S, G, r["hshelf"], r["shelf"][k], r["XT"][:, k], r["XS"][:, k], dec[k])
+            Tl = r["XT"][:, k] + q / S.const["hl"] * S.dt
+            wrongjump = dec[k] & ~(Tl < S.const["T_eq_l"])
+            if wrongjump.any():
+                i = int(np.argmax(wrongjump))
+                rep.violation("jump-not-supercooled", "run %s step %d vial %d jumps to sigma=%r although its temperature %r is not below T_eq_l=%r" % (
+                    cfg["shape"], k, i, r["XS"][i, k + 1], Tl[i], S.const["T_eq_l"]), dict(config=cfg, step=k, vial=i))
+                break
             bad = ~(np.isclose(T2, r["XT"][:, k + 1], rtol=1e-9, atol=1e-9) & np.isclose(s2, r["XS"][:, k + 1], rtol=1e-9, atol=1e-11))
             if bad.any():
                 i = int(np.argmax(bad))
